@@ -940,11 +940,16 @@ def check_single_recipient():
 
 
 def check_multi_recipients():
-    """(round 7) _parse_multi_recipients on strings: the pieces between ';' / ',' that give a name or an address, in order."""
+    """(round 7) _parse_multi_recipients on strings (the pieces between ';' / ',' that give a name or an address, in order) and on
+    lists of such strings (concatenation in item order)."""
     from sharepoint2text.parsing.extractors.mail import msg_email_extractor as msg
     table = [("", []), ("A <a@x.com>; B <b@x.com>", [("A", "a@x.com"), ("B", "b@x.com")]), ("u1@x.com, u2@x.com", [("", "u1@x.com"), ("", "u2@x.com")]),
              ("A <a@x.com>;;  ; B", [("A", "a@x.com"), ("B", "")]), ("< > ; c@x.org", [("", "c@x.org")]), (";", []), ("One Name", [("One Name", "")]),
-             ("X <x@x.org>,Y <y@x.org>;Z <z@x.org>", [("X", "x@x.org"), ("Y", "y@x.org"), ("Z", "z@x.org")])]
+             ("X <x@x.org>,Y <y@x.org>;Z <z@x.org>", [("X", "x@x.org"), ("Y", "y@x.org"), ("Z", "z@x.org")]),
+             # the list form: the recipients of each item, items in order
+             ([], []), (["User <user@x.com>"], [("User", "user@x.com")]),
+             (["A <a@x.com>", "B <b@x.com>; C <c@x.com>", "", "d@x.com"], [("A", "a@x.com"), ("B", "b@x.com"), ("C", "c@x.com"), ("", "d@x.com")]),
+             (["Q <q@x.org>, R", "S <s@x.org>"], [("Q", "q@x.org"), ("R", ""), ("S", "s@x.org")])]
     for raw, want in table:
         got = [(r.name, r.address) for r in msg._parse_multi_recipients(raw)]
         if got != want:
